@@ -277,6 +277,57 @@ pub fn builtin_case(text: &str, tts: &[TT], h: usize, seed: Option<u64>, st: &mu
     out
 }
 
+/// bounded / rendezvous result channel with a consumer that starts late: the search must wait for the consumer, every
+/// model must arrive and the consumer loop must end. (Correct code never depends on the timing used here: the solver
+/// thread simply stays blocked in `send` until the consumer starts; only a search that gives up on a full channel ends
+/// early.)
+pub fn bounded_case(text: &str, tts: &[TT], cap: usize, twoval: bool) -> Vec<(String, String)> {
+    let n = tts.len();
+    let want = if twoval { models2(tts) } else { stable(tts) };
+    let mut out = vec![];
+    let text2 = text.to_string();
+    let (s, r) = crossbeam_channel::bounded::<Vec<Term>>(cap);
+    let h = std::thread::spawn(move || {
+        guard(|| {
+            let parser = AdfParser::default();
+            parser.parse()(&text2).expect("well-formed");
+            let mut adf = Adf::from_parser(&parser);
+            adf_bdd::verif::set_budget(Some(STEP_BUDGET));
+            if twoval {
+                adf.two_val_nogood_channel(Heuristic::Simple, s);
+            } else {
+                adf.stable_nogood_channel(Heuristic::Simple, s);
+            }
+        })
+    });
+    // the consumer starts late: either the solver thread ends by itself (fewer models than the channel holds) or it
+    // is blocked in send
+    let t0 = std::time::Instant::now();
+    while !h.is_finished() && t0.elapsed().as_millis() < 40 {
+        std::thread::sleep(std::time::Duration::from_millis(1));
+    }
+    let label = format!("bounded({}).{}", cap, if twoval { "two_val_nogood_channel" } else { "stable_nogood_channel" });
+    let mut items = vec![];
+    let deadline = std::time::Instant::now() + std::time::Duration::from_secs(20);
+    loop {
+        match r.recv_deadline(deadline) {
+            Ok(m) => items.push(m),
+            Err(crossbeam_channel::RecvTimeoutError::Disconnected) => break,
+            Err(crossbeam_channel::RecvTimeoutError::Timeout) => {
+                out.push((format!("{}:consumer-loop-hangs", label), "the consumer loop over the channel does not end".into()));
+                return out;
+            }
+        }
+    }
+    match h.join() {
+        Ok(Ok(())) => {}
+        Ok(Err(m)) => out.push((format!("{}:panic", label), m)),
+        Err(_) => out.push((format!("{}:panic", label), "solver thread died".into())),
+    }
+    cmp_models(&label, &items, &want, n, &mut out);
+    out
+}
+
 /// class of the first `len` heuristic calls of a seed: (next_u64 mod 6, gen_bool) per call - mod 6 fixes the
 /// position chosen for every list length <= 3
 fn seed_class(k: u64, len: usize) -> Vec<u8> {
@@ -367,7 +418,7 @@ pub fn run_c05(run: &Run) {
     let mut builtin_sources = standard_sources(run, false);
     if quick {
         // the residue class of A(3) is left to the thorough tier (which runs all of A(3))
-        builtin_sources.retain(|s| !s.name().starts_with("S_"));
+        builtin_sources.retain(|s| !s.name().starts_with("S_") && !s.name().starts_with("F(4,2) class"));
     }
     for src in builtin_sources {
         let name = format!("built-in heuristics x 3 entry points x native/hybrid: {}", src.name());
@@ -393,6 +444,54 @@ pub fn run_c05(run: &Run) {
             run.add_counts(st.adfs, st.calls, st.calls, 0);
             max_steps = max_steps.max(st.max_steps);
             run.add_outcomes(st.outcomes);
+        }
+    }
+
+    // ---- (2b) bounded and rendezvous result channels with a late consumer
+    {
+        let src = Source::FamCompact(fam_a(2));
+        let mut items: Vec<(u64, usize, bool)> = vec![];
+        for k in 0..src.size() {
+            let c = src.get(k);
+            for twoval in [false, true] {
+                let nm = if twoval { models2(&c.tts).len() } else { stable(&c.tts).len() };
+                for cap in [0usize, 1] {
+                    if nm >= cap + 2 || (nm >= 1 && cap == 0 && k % 8 == run.seed % 8) {
+                        items.push((k, cap, twoval));
+                    }
+                }
+            }
+        }
+        let f31 = Source::FamCompact(fam_f(3, 1));
+        let mut items3: Vec<(u64, usize, bool)> = vec![];
+        for k in 0..f31.size() {
+            let c = f31.get(k);
+            if models2(&c.tts).len() >= 4 {
+                items3.push((k, 1, true));
+                items3.push((k, 2, true));
+            }
+            if stable(&c.tts).len() >= 3 {
+                items3.push((k, 1, false));
+            }
+        }
+        for (name, src, its) in [("A(2)", &src, &items), ("F(3,1)", &f31, &items3)] {
+            let res = run.par_family(
+                &format!("bounded / rendezvous result channel with a late consumer: {} ({} cases with more models than the channel holds)", name, its.len()),
+                its.len() as u64,
+                || 0u64,
+                |st, i| {
+                    let (k, cap, twoval) = its[i as usize];
+                    let c = src.get(k);
+                    *st += 1;
+                    for (kind, msg) in bounded_case(&c.text, &c.tts, cap, twoval) {
+                        run.violation(&kind, format!("{} on {}", msg, c.text), json!({"type": "bounded", "text": c.text, "tts": c.tts, "cap": cap, "twoval": twoval}));
+                    }
+                },
+                &|i| json!({"type": "bounded", "text": src.get(its[i as usize].0).text, "tts": src.get(its[i as usize].0).tts, "cap": its[i as usize].1, "twoval": its[i as usize].2}),
+            );
+            for st in res {
+                run.add_counts(0, st, st, st);
+            }
         }
     }
 
@@ -433,6 +532,8 @@ pub fn run_c05(run: &Run) {
             run.add_outcomes(st.outcomes);
         }
     }
+    // CLI clause: --stmng / --twoval with every heuristic value (and none)
+    crate::c15::cli_slice(run, &[1 << 8, 1 << 9], &[None, Some(0), Some(1), Some(2), Some(3)]);
     run.extra("max_loop_steps_observed", json!(max_steps));
     run.extra("loop_step_budget", json!(STEP_BUDGET));
     run.extra("states_are", json!("distinct ADFs explored"));
@@ -441,9 +542,15 @@ pub fn run_c05(run: &Run) {
 }
 
 pub fn replay(c: &Value) -> Vec<(String, String)> {
+    if c["type"] == "cli" {
+        return crate::c15::replay(c);
+    }
     let text = c["text"].as_str().unwrap_or_default().to_string();
     let tts: Vec<TT> = c["tts"].as_array().map(|a| a.iter().map(|x| x.as_u64().unwrap_or(0) as TT).collect()).unwrap_or_default();
     let mut st = St::default();
+    if c["type"] == "bounded" {
+        return bounded_case(&text, &tts, c["cap"].as_u64().unwrap_or(0) as usize, c["twoval"].as_bool().unwrap_or(false));
+    }
     if c["type"] == "builtin" {
         return builtin_case(&text, &tts, c["heuristic"].as_u64().unwrap_or(0) as usize, c["seed"].as_u64(), &mut st);
     }
